@@ -5,14 +5,20 @@ import json, os, re, shutil, subprocess, sys, tempfile, glob
 ENV = dict(os.environ, GOFLAGS="-mod=mod", GOPROXY="off", GOSUMDB="off", GOTOOLCHAIN="local"); ENV.pop("GOWORK", None)
 here = os.path.dirname(os.path.abspath(__file__))
 head = subprocess.check_output(["git", "-C", "/repo", "rev-parse", "--short", "HEAD"], text=True).strip()
+from shlex import quote as shq
+os.makedirs("/var/tmp/nutsseed", exist_ok=True)
+PRIV = tempfile.mkdtemp(prefix="nutspriv.", dir="/var/tmp/nutsseed")
 def sh(cmd, cwd=None, timeout=900):
+    # the repository's tests use fixed /tmp/nutsdb* directories: run every command in a mount namespace with a private /tmp
+    if not cmd.startswith("patch "):
+        cmd = "unshare -m sh -c %s" % shq("mount --bind %s /tmp && cd %s && %s" % (PRIV, cwd or ".", cmd))
     try:
         p = subprocess.run(cmd, shell=True, cwd=cwd, env=ENV, capture_output=True, text=True, timeout=timeout)
         return p.returncode, p.stdout + p.stderr
     except subprocess.TimeoutExpired:
         return 124, "TIMEOUT"
 def fresh():
-    d = tempfile.mkdtemp(prefix="nutsre.", dir="/tmp")
+    d = tempfile.mkdtemp(prefix="nutsre.", dir="/var/tmp/nutsseed")
     subprocess.run("git -C /repo archive HEAD | tar -x -C %s" % d, shell=True, check=True)
     return d
 def demo(tree, src, race):
